@@ -89,6 +89,10 @@ class Ctx:
 
     def require(self, cond, msg):
         if not cond:
+            if getattr(self, 'in_section', 0):
+                # inside a rule section the anchored functions have been found already: what is missing
+                # is the shape this rule reads
+                raise SoftBroken(msg)
             raise AnalysisBroken(msg)
 
     def need(self, cond, msg):
@@ -110,12 +114,14 @@ class _Section:
         self.ctx, self.rule, self.node = ctx, rule, node
 
     def __enter__(self):
+        self.ctx.in_section = getattr(self.ctx, 'in_section', 0) + 1
         return self
 
     def __exit__(self, et, ev, tb):
+        self.ctx.in_section -= 1
         if et is None:
             return False
-        soft = issubclass(et, SoftBroken) or (issubclass(et, (NameError, UnboundLocalError)) and getattr(self.ctx, 'soft_skipped', False))
+        soft = issubclass(et, (SoftBroken, AnalysisBroken, StopIteration)) or (issubclass(et, (NameError, UnboundLocalError)) and getattr(self.ctx, 'soft_skipped', False))
         if not soft:
             return False
         self.ctx.soft_skipped = True
